@@ -188,7 +188,14 @@ def decrypt_with(o, case, ct, tag):
             o.verify(tag)                   # nothing to decrypt: update(); verify() - no decrypt() call at all
             return b""
         return o.decrypt_and_verify(ct, tag)
-    return o.decrypt(ct)
+    # the receiver gets the ciphertext in the same pieces the sender produced it in (block modes: the cuts are on block boundaries already)
+    pt = b""
+    pos = 0
+    for n in case.get("split", []) + [len(ct)]:
+        n = min(n, len(ct))
+        pt += o.decrypt(ct[pos:n])
+        pos = max(pos, n)
+    return pt
 
 
 def record(case, tid):
